@@ -238,3 +238,77 @@ class AxisMetadataSurvivesIndexing(Contract):
             yield "full-slice-copies", result is not env["ax"]
         else:
             yield "always-first-label", result == S.at(env["L"], 0)
+
+
+class CopyIndependence(Contract):
+    """DimArray.copy() / Axis.copy() / Axes.copy() are deep: the copy has the same dims, labels, data and metadata, and
+    shares NOTHING mutable with the original -- not the data buffer, not a label buffer, not an Axis object, not the attrs
+    dictionary, not a mutable value stored in attrs.  (Object identity is exact here, so disjointness of the two object
+    graphs is what "later changes to the copy never show through, and vice versa" means.)  copy(shallow=True) is a
+    different function and deliberately shares.  [C15]"""
+    target = "dimarray.core.dimarraycls:DimArray.copy"
+    props = ("C15",)
+
+    def cases(self, tier):
+        for what in ("DimArray", "Axis", "Axes"):
+            for rank in ((0, 1, 2, 3) if what == "DimArray" else (2,)):
+                yield {"name": "%s-r%d" % (what, rank), "what": what, "rank": rank}
+
+    def bound_lengths(self, case):
+        return ["lab%d.n" % d for d in range(case["rank"])]
+
+    def setup(self, S, case):
+        from .bases import make_dimarray
+        arr, labels, data = make_dimarray(S, case["rank"], attrs={"units": "K", "history": ["made"], "nested": {"k": [1]}})
+        for ax in arr.axes:
+            ax.attrs["long_name"] = ["axis", "meta"]
+        return {"arr": arr, "labels": labels, "data": data}
+
+    def call(self, fn, env):
+        what = env["case"]["what"]
+        if what == "DimArray":
+            return env["arr"].copy()
+        if what == "Axis":
+            return env["arr"].axes[0].copy()
+        return env["arr"].axes.copy()
+
+    def post(self, S, case, env, result):
+        arr, labels, data = env["arr"], env["labels"], env["data"]
+        rank, what = case["rank"], case["what"]
+
+        def axis_pair(new, old, L, tag):
+            yield tag + ":equal", S.land(new.name == old.name, S.n(new.values) == S.n(L),
+                                         S.forall(0, S.n(L), lambda k: S.implies(k < S.n(new.values), lambda: S.at(new.values, k) == S.at(L, k))),
+                                         dict(new.attrs) == dict(old.attrs))
+            yield tag + ":shares-nothing", S.land(new is not old, S.lnot(S.same_buffer(new.values, old.values)), new.attrs is not old.attrs,
+                                                  new.attrs["long_name"] is not old.attrs["long_name"])
+        if what == "Axis":
+            for c in axis_pair(result, arr.axes[0], labels[0], "axis"):
+                yield c
+            return
+        if what == "Axes":
+            yield "same-number-of-axes", len(result) == rank and result is not arr.axes
+            for d in range(rank):
+                for c in axis_pair(result[d], arr.axes[d], labels[d], "axis%d" % d):
+                    yield c
+            return
+        yield "is-dimarray-with-same-dims", S.land(S.is_dimarray(result), result is not arr, tuple(result.dims) == tuple(arr.dims))
+        for d in range(rank):
+            for c in axis_pair(result.axes[d], arr.axes[d], labels[d], "axis%d" % d):
+                yield c
+        yield "data-equal", S.forall_nd(S.shape(data), lambda *p: S.same(S.at(result.values, *p), S.at(data, *p)))
+        yield "data-buffer-not-shared", S.lnot(S.same_buffer(result.values, arr.values))
+        yield "metadata-equal", dict(result.attrs) == dict(arr.attrs)
+        yield "metadata-and-its-mutable-values-not-shared", S.land(
+            result.attrs is not arr.attrs, result.attrs["history"] is not arr.attrs["history"],
+            result.attrs["nested"] is not arr.attrs["nested"], result.attrs["nested"]["k"] is not arr.attrs["nested"]["k"])
+        yield "axes-container-not-shared", result.axes is not arr.axes
+        yield "original-untouched", S.land(arr.values is data, *[arr.axes[d].values is labels[d] for d in range(rank)])
+
+    def canaries(self, S, case, env, result):
+        if case["what"] == "DimArray":
+            yield "copy-is-the-original", result is env["arr"]
+        elif case["what"] == "Axis":
+            yield "copy-is-the-original", result is env["arr"].axes[0]
+        else:
+            yield "copy-is-the-original", result is env["arr"].axes
